@@ -887,6 +887,12 @@ def _read_header_batch(
     except RpcError:
         _drain_stream(reader)
         raise
+    except Exception:
+        # Same as the unary path: a raising on_log callback must not leave the
+        # header stream half-read.
+        with contextlib.suppress(Exception):
+            _drain_stream(reader)
+        raise
     _drain_stream(reader)
     return resolve_external_location(batch, cm, external_config, on_log, ipc_validation)
 
@@ -1030,6 +1036,13 @@ def _read_unary_response(
         batch = _read_batch_with_log_check(reader, on_log, external_config, shm=shm)
     except RpcError:
         _drain_stream(reader)
+        raise
+    except Exception:
+        # A failure on this side of the wire — typically the on_log callback
+        # raising — must not leave the rest of the response unread, or the
+        # next call on the transport would read it as its own reply.
+        with contextlib.suppress(Exception):
+            _drain_stream(reader)
         raise
     try:
         _drain_stream(reader)
